@@ -33,7 +33,14 @@ func (p *Prog) constPrefixOf(v ssa.Value) (string, bool) { return p.constPrefix(
 // constPrefixContent is constPrefixOf without the capacity requirement (content only).
 func (p *Prog) constPrefixContent(v ssa.Value) (string, bool) { return p.constPrefix(v, false) }
 
+var constPrefixDepth int
+
 func (p *Prog) constPrefix(v ssa.Value, strict bool) (string, bool) {
+	if constPrefixDepth > 6 {
+		return "", false
+	}
+	constPrefixDepth++
+	defer func() { constPrefixDepth-- }()
 	u, ok := v.(*ssa.UnOp)
 	if !ok || u.Op != token.MUL {
 		return "", false
@@ -72,6 +79,14 @@ func (p *Prog) constPrefix(v ssa.Value, strict bool) (string, bool) {
 	res := ""
 	for i, val := range vals {
 		s, ok := constBytesContent(val, strict)
+		if !ok {
+			// a copy of another object's prefix (a parameter object that carries the function object's prefix along)
+			if ld, isLoad := val.(*ssa.UnOp); isLoad && ld.Op == token.MUL && ld != u {
+				if _, isFA := ld.X.(*ssa.FieldAddr); isFA {
+					s, ok = p.constPrefix(ld, strict)
+				}
+			}
+		}
 		if !ok || (i > 0 && s != res) {
 			return "", false
 		}
